@@ -172,10 +172,18 @@ theorem saveRejFiles_inv (rejs : List (Bytes × Bytes)) :
     intro w h
     obtain ⟨name, content⟩ := x
     generalize hr : saveRejFiles w ((name, content) :: rest) = r
-    unfold saveRejFiles at hr
+    rw [saveRejFiles_cons] at hr
     split at hr
     · subst hr; exact h
     · rename_i k _
+      split at hr
+      · -- bypassed: the file system is untouched
+        have hl : ∀ (w : World) (o : Op), WInv fs0 w → WInv fs0 (w.logged o) := fun _ _ h => h
+        split at hr
+        · subst hr; exact hl _ _ h
+        · split at hr
+          · subst hr; exact hl _ _ (hl _ _ h)
+          · subst hr; exact ih (hl _ _ (hl _ _ h))
       split at hr
       · rename_i hop; subst hr; exact inv_failed h hop
       all_goals
